@@ -88,6 +88,59 @@ pub fn run(args: &[&str]) -> (String, Option<String>) {
 pub fn gen_stall(rng: &mut Rng, n: usize, out: &mut Vec<String>) {
     for _ in 0..n { out.push(format!("stall {} {} {}", *rng.pick(&[3u32, 40, 300, 700]), *rng.pick(&[200_000u32, 1_000_000]), *rng.pick(&[1u32, 300, 5000]))); }
 }
+/// A LASTING stall (known finding F49): the peer keeps the connection open and stops reading for good while the driver is in the middle of
+/// writing a large request. The driver awaits that write inside one arm of its select!, so nothing else is served while it lasts:
+/// "resp" - the response to another, timed operation arrives during the stall and must be handed over before that operation's deadline (C12);
+/// "ids"  - an operation started during the stall times out at its deadline; its id must not stay reserved (C13);
+/// "drop" - the last handle is dropped during the stall: the driver must end and close the transport (C04).
+pub fn gen_wstall(_rng: &mut Rng, _n: usize, out: &mut Vec<String>) { for v in ["resp", "ids", "drop"] { out.push(format!("wstall {}", v)); } }
+pub fn run_wstall(args: &[&str]) -> (String, Option<String>) {
+    let variant = args[0].to_string();
+    let rt = crate::sess::runtime();
+    let res = std::panic::catch_unwind(std::panic::AssertUnwindSafe(|| rt.block_on(async move {
+        let (client, mut server) = tokio::io::duplex(16 * 1024);
+        let (conn, ldap) = LdapConnAsync::verif_new(Box::new(client));
+        let table = ldap.verif_id_table_handle();
+        let driver = tokio::spawn(async move { let _ = conn.drive().await; });
+        // A: a timed Compare; the peer reads its request and nothing after it
+        let mut la = ldap.clone(); la.with_timeout(Duration::from_secs(5));
+        let ha = tokio::spawn(async move { la.compare("cn=a", "cn", "a").await.map(|r| r.0.rc) });
+        crate::sess::settle().await;
+        let mut inbuf: Vec<u8> = vec![]; let mut buf = vec![0u8; 4096]; let mut ida = -1i64;
+        for _ in 0..50 { if let Some(Ok(k)) = futures_util::FutureExt::now_or_never(server.read(&mut buf)) { inbuf.extend_from_slice(&buf[..k]); }
+            let mut min = true; if let ownber::Own::Ok(t, _) = ownber::read(&inbuf, &mut min, 0) { if let PL::C(k) = &t.payload { if let PL::P(v) = &k[0].payload { ida = ownber::twos(v).unwrap_or(-1) as i64; } } break; }
+            crate::sess::settle().await; }
+        if ida < 0 { return Some("harness: the first request did not arrive".to_string()); }
+        // B: a large Add; the driver gets stuck writing it, for good
+        let mut lb = ldap.clone();
+        let hb = tokio::spawn(async move { lb.add("cn=big", vec![("blob".as_bytes().to_vec(), [vec![b'x'; 1_000_000]].into_iter().collect::<HashSet<Vec<u8>>>())]).await.map(|r| r.rc) });
+        crate::sess::settle().await;
+        let out = match variant.as_str() {
+            "resp" => {
+                let mut e = vec![]; ownber::write(&message(ida, ldap_result(15, 6, b"", b"", None), None), &mut e, &mut |_| 0);
+                let _ = server.write_all(&e).await;
+                crate::sess::settle().await; tokio::time::advance(Duration::from_millis(1000)).await; crate::sess::settle().await;
+                if ha.is_finished() { match ha.await { Ok(Ok(6)) => None, other => Some(format!("the Compare was answered compareTrue, its caller got {:?}", other.map(|r| r.map_err(|e| format!("{:?}", e))))) } }
+                else { Some("[only:C12] F49-write-stall: the response to a Compare with a 5 s timeout arrived 1 s ago and has not been handed over - the driver is parked in the write of another operation's request and reads nothing".to_string()) }
+            }
+            "ids" => {
+                let mut lc = ldap.clone(); lc.with_timeout(Duration::from_millis(300));
+                let hc = tokio::spawn(async move { lc.delete("cn=c").await.map(|r| r.rc) });
+                crate::sess::settle().await; tokio::time::advance(Duration::from_millis(300)).await; crate::sess::settle().await; tokio::time::advance(Duration::from_millis(700)).await; crate::sess::settle().await;
+                if !hc.is_finished() { Some("the operation with a 300 ms timeout is still waiting 700 ms after its deadline".to_string()) }
+                else { let n = table.lock().unwrap().1.len();      // A and B are in flight: two ids; the timed-out Delete's must be gone
+                    if n > 2 { Some(format!("[only:C13] F49-write-stall: an operation that timed out 700 ms ago still has its message id reserved ({} ids in the table, 2 operations in flight) - the driver is parked in a write and serves no scrub request", n)) } else { None } }
+            }
+            _ => {
+                ha.abort(); hb.abort(); drop(ldap);
+                crate::sess::settle().await; tokio::time::advance(Duration::from_millis(1000)).await; crate::sess::settle().await;
+                if driver.is_finished() { None } else { Some("[only:C04] F49-write-stall: every handle was dropped 1 s ago and the driver has not ended (the transport is still open) - it is parked in the write of a request whose caller is gone".to_string()) }
+            }
+        };
+        out
+    })));
+    match res { Ok(o) => ("oracle-only".into(), o), Err(_) => ("oracle-only".into(), Some("the lasting-stall scenario panicked".into())) }
+}
 pub fn run_stall(args: &[&str]) -> (String, Option<String>) {
     let n: usize = args[0].parse().unwrap(); let big: usize = args[1].parse().unwrap(); let tmo: u64 = args[2].parse().unwrap();
     let rt = crate::sess::runtime();
